@@ -34,6 +34,8 @@ def umodel(s):
 
 
 def cxx(s):
+    if s.startswith("decltype(Seconds{} / mag<"):
+        return s.replace("Seconds", "au::Seconds").replace("mag<", "au::mag<")
     if s.startswith("decltype"):
         return s.replace("pow<-1>(", "pow<-1>(au::")
     if "<" in s:
@@ -120,6 +122,14 @@ def run(ctx):
                         neg.append((u, t, rep, Kf))
                 elif Kf.denominator == 1 and 1 <= Kf < 2 ** 63:
                     insts.append({"kind": "inv", "u": u, "t": t, "rep": rep, "K": int(Kf)})
+    # threshold straddlers: K = 999999 / 10^6 / 10^6+1 / 10^5 via generated time units 1/K s against Hertz
+    for Kb in (99999, 100000, 999999, 1000000, 1000001, 2147483647):
+        for rep in ("int32_t", "int64_t", "double"):
+            ent = {"kind": "inv", "u": "decltype(Seconds{} / mag<%d>())" % Kb, "t": "Hertz", "rep": rep, "K": Kb}
+            if reps.is_int(rep) and Kb < 10 ** 6:
+                neg.append((ent["u"], "Hertz", rep, F(Kb)))
+            else:
+                insts.append(ent)
     # trig
     for a in ANG:
         for rep in ("double", "float", "int32_t", "int16_t", "long double"):
@@ -133,7 +143,7 @@ def run(ctx):
         cnt = {}
         for j, i in enumerate(insts):
             cnt[i["kind"]] = cnt.get(i["kind"], 0) + 1
-            if i["kind"] in ("inv", "bin", "trig") and (j + ctx.seed) % 2:
+            if i["kind"] in ("inv", "bin", "trig") and (j + ctx.seed) % 2 and not str(i.get("u", "")).startswith("decltype(Seconds{} / mag<"):
                 continue
             keep.append(i)
         insts = keep
@@ -198,7 +208,8 @@ def run(ctx):
     # negative probes: implicit-rep integral inversion with K < 10^6 must not compile
     items, meta = [], []
     step = max(1, len(neg) // (30 if quick else 400))
-    for j, (u, t, rep, Kf) in enumerate(neg[::step]):
+    chosen = [x for x in neg if str(x[0]).startswith("decltype(Seconds{} / mag<")] + neg[::step]
+    for j, (u, t, rep, Kf) in enumerate(chosen):
         form = ["inverse_in", "inverse_as"][j % 2]
         bad = "auto f(Quantity<%s, %s> q) { return %s(%s{}, q); }" % (cxx(u).replace("au::", ""), rep, form, cxx(t).replace("au::", ""))
         twin = "auto f(Quantity<%s, double> q) { return %s(%s{}, q); }" % (cxx(u).replace("au::", ""), form, cxx(t).replace("au::", ""))
